@@ -203,6 +203,949 @@ Section Proofs.
     - unfold capacity. cbn. rewrite fresh_local_length. lia.
   Qed.
 
+  Ltac app0 H := cbn [app length] in H.
+
+  Lemma existsb_app_false : forall (A : Type) (f : A -> bool) l1 l2,
+    existsb f l1 = false -> existsb f l2 = false -> existsb f (l1 ++ l2) = false.
+  Proof. intros. rewrite existsb_app, H, H0. reflexivity. Qed.
+
+  (* free_heap_memory() on a well-formed heap vector *)
+  Lemma free_heap_ok : forall h l n vs rest,
+    h = map AS vs ++ rest -> length vs = n -> Forall (restP P true) rest ->
+    free_heap_memory P (mkSv (Some h) l n) = Ok (mkSv None l 0).
+  Proof.
+    intros h l n vs rest Hh Hn Hr. unfold free_heap_memory. cbn [heap size loc].
+    destruct triv eqn:Ht.
+    - cbn [bind]. unfold free_block. rewrite Ht. reflexivity.
+    - subst h.
+      pose proof (destroy_app [] (map AS vs) rest 0 n eq_refl) as Hd. app0 Hd.
+      rewrite Hd; [|rewrite map_length; lia|apply alive_AS].
+      cbn [bind]. unfold free_block. rewrite Ht.
+      rewrite existsb_app_false; [reflexivity| |].
+      + apply existsb_alive_raw. apply Forall_repeat. reflexivity.
+      + apply existsb_alive_raw. apply restP_heap_nontriv; assumption.
+  Qed.
+
+  Lemma firstn_map_AS_app : forall vs rest, firstn (length vs) (map AS vs ++ rest) = map AS vs.
+  Proof.
+    intros. rewrite firstn_app, map_length, Nat.sub_diag. cbn.
+    rewrite app_nil_r. rewrite <- (map_length AS vs). apply firstn_all.
+  Qed.
+
+  (* grow(n) *)
+  Lemma grow_ok : forall s vs n, rep s vs -> length vs <= n -> S <= n ->
+    exists s', grow P n s = Ok s' /\ rep s' vs /\ is_heap s' = true /\ capacity s' = n.
+  Proof.
+    intros s vs n (Hll & Hla & rest & Hd & Hn & Hr & Hc) Hle HS.
+    unfold grow. rewrite Hd, <- Hn.
+    pose proof (moveout_app [] vs rest 0 eq_refl) as Hm. app0 Hm. rewrite Hm. cbn [bind].
+    assert (Ha : alloc P n = alloc P (length vs) ++ alloc P (n - length vs)).
+    { rewrite <- alloc_split. f_equal. lia. }
+    rewrite Ha.
+    pose proof (construct_app [] vs (alloc P (length vs)) (alloc P (n - length vs)) 0 eq_refl) as Hk.
+    app0 Hk. rewrite Hk; [|apply alloc_length|apply alloc_rest]. cbn [bind].
+    assert (Hrep : forall l', length l' = S -> Forall alive l' ->
+              rep (mkSv (Some (map AS vs ++ alloc P (n - length vs))) l' (length vs)) vs).
+    { intros l' H1 H2. unfold rep. cbn. repeat split; try assumption.
+      exists (alloc P (n - length vs)). repeat split.
+      - apply alloc_rest.
+      - unfold capacity. cbn. rewrite app_length, map_length, alloc_length. lia. }
+    destruct s as [[h|] l sz]; cbn [is_heap heap set_data size loc data] in *.
+    - erewrite free_heap_ok; [|reflexivity|apply map_length|exact Hr].
+      cbn [bind loc]. eexists. split; [reflexivity|]. split; [apply Hrep; assumption|].
+      split; [reflexivity|]. unfold capacity. cbn. rewrite app_length, map_length, alloc_length. lia.
+    - cbn [bind loc]. eexists. split; [reflexivity|]. split.
+      + apply Hrep.
+        * rewrite app_length, !map_length. rewrite <- Hll, Hd, app_length, map_length. reflexivity.
+        * apply Forall_app. split; [apply alive_AS|].
+          eapply Forall_impl; [|exact Hr]. intros c Hcc. exact Hcc.
+      + split; [reflexivity|]. unfold capacity. cbn. rewrite app_length, map_length, alloc_length. lia.
+  Qed.
+
+  Definition fl : cell := if triv then Alive None else AS dflt.
+
+  Lemma fl_alive : alive fl.
+  Proof. unfold fl. destruct triv; reflexivity. Qed.
+
+  Lemma fresh_local_split : forall n, n <= S -> fresh_local P = repeat fl n ++ repeat fl (S - n).
+  Proof. intros n H. unfold fresh_local. fold fl. rewrite <- repeat_app. f_equal. lia. Qed.
+
+  Lemma rep_local : forall l vs rest n,
+    l = map AS vs ++ rest -> length l = S -> length vs = n -> Forall alive rest ->
+    rep (mkSv None l n) vs.
+  Proof.
+    intros l vs rest n Hl HS Hn Hr. unfold rep. cbn.
+    split; [assumption|]. split.
+    - subst l. apply Forall_app. split; [apply alive_AS|assumption].
+    - exists rest. repeat split; try assumption. unfold capacity. cbn. lia.
+  Qed.
+
+  Lemma rep_heap : forall h l vs rest n,
+    h = map AS vs ++ rest -> length l = S -> Forall alive l -> length vs = n ->
+    Forall (restP P true) rest -> S <= length h ->
+    rep (mkSv (Some h) l n) vs.
+  Proof.
+    intros h l vs rest n Hh HS Hl Hn Hr Hc. unfold rep. cbn.
+    split; [assumption|]. split; [assumption|]. exists rest. repeat split; assumption.
+  Qed.
+
+  (* the constructors *)
+  Lemma build_ok : forall vs, exists s, build P vs = Ok s /\ rep s vs.
+  Proof.
+    intro vs. unfold build. destruct (length vs <=? S) eqn:E.
+    - apply Nat.leb_le in E. rewrite (fresh_local_split (length vs) E).
+      pose proof (assign_app [] vs (repeat fl (length vs)) (repeat fl (S - length vs)) 0 eq_refl) as H.
+      app0 H. rewrite H; [|apply repeat_length|apply Forall_repeat, fl_alive]. cbn [bind].
+      eexists. split; [reflexivity|].
+      eapply rep_local; [reflexivity| |reflexivity|apply Forall_repeat, fl_alive].
+      rewrite app_length, map_length, repeat_length. lia.
+    - apply Nat.leb_gt in E.
+      pose proof (construct_app [] vs (alloc P (length vs)) [] 0 eq_refl) as H.
+      app0 H. rewrite !app_nil_r in H. rewrite H; [|apply alloc_length|apply alloc_rest]. cbn [bind].
+      eexists. split; [reflexivity|].
+      eapply rep_heap with (rest := []);
+        [rewrite app_nil_r; reflexivity|apply fresh_local_length|apply fresh_local_alive|reflexivity|constructor|].
+      rewrite map_length. lia.
+  Qed.
+
+  Lemma ctor_n_ok : forall n, exists s, ctor_n P n = Ok s /\ rep s (repeat dflt n).
+  Proof.
+    intro n. unfold ctor_n. destruct (n <=? S) eqn:E.
+    - apply Nat.leb_le in E. destruct triv eqn:Ht.
+      + rewrite (fresh_local_split n E).
+        pose proof (assign_app [] (repeat dflt n) (repeat fl n) (repeat fl (S - n)) 0 eq_refl) as H.
+        app0 H. rewrite H; [|rewrite !repeat_length; reflexivity|apply Forall_repeat, fl_alive]. cbn [bind].
+        eexists. split; [reflexivity|].
+        eapply rep_local; [reflexivity| |apply repeat_length|apply Forall_repeat, fl_alive].
+        rewrite app_length, map_length, !repeat_length. lia.
+      + cbn [bind]. eexists. split; [reflexivity|].
+        eapply rep_local with (rest := repeat fl (S - n));
+          [|apply fresh_local_length|apply repeat_length|apply Forall_repeat, fl_alive].
+        rewrite (fresh_local_split n E). f_equal. unfold fl. rewrite Ht. rewrite map_repeat. reflexivity.
+    - apply Nat.leb_gt in E.
+      pose proof (construct_app [] (repeat dflt n) (alloc P n) [] 0 eq_refl) as H.
+      app0 H. rewrite !app_nil_r in H. rewrite H; [|rewrite alloc_length, repeat_length; reflexivity|apply alloc_rest].
+      cbn [bind]. eexists. split; [reflexivity|].
+      eapply rep_heap with (rest := []);
+        [rewrite app_nil_r; reflexivity|apply fresh_local_length|apply fresh_local_alive|apply repeat_length|constructor|].
+      rewrite map_length, repeat_length. lia.
+  Qed.
+
+  Lemma contents_ok : forall s vs, rep s vs -> read_range 0 (size s) (data s) = Ok vs.
+  Proof.
+    intros s vs H. pose proof (rep_abs _ _ H) as Ha. unfold abs, contents in Ha.
+    destruct (read_range 0 (size s) (data s)); congruence.
+  Qed.
+
+  Lemma copy_ctor_ok : forall rhs vs, rep rhs vs -> exists s, copy_ctor P rhs = Ok s /\ rep s vs.
+  Proof.
+    intros rhs vs H. unfold copy_ctor. rewrite (contents_ok _ _ H). cbn [bind]. apply build_ok.
+  Qed.
+
+  (* moving out of the elements of a well-formed vector *)
+  Lemma rep_moveout : forall s vs, rep s vs ->
+    exists d', moveout_range P 0 (size s) (data s) = Ok (vs, d') /\
+               rep (set_data s d' (size s)) (map mv vs).
+  Proof.
+    intros s vs (Hll & Hla & rest & Hd & Hn & Hr & Hc).
+    rewrite Hd, <- Hn.
+    pose proof (moveout_app [] vs rest 0 eq_refl) as Hm. app0 Hm. rewrite Hm.
+    eexists. split; [reflexivity|].
+    destruct s as [[h|] l sz]; cbn [set_data heap loc size data is_heap] in *.
+    - eapply rep_heap; [reflexivity|assumption|assumption|apply map_length|exact Hr|].
+      unfold capacity in Hc. cbn in Hc. rewrite Hd in Hc.
+      rewrite app_length, !map_length in *. exact Hc.
+    - eapply rep_local; [reflexivity| |apply map_length|exact Hr].
+      rewrite <- Hll, Hd, !app_length, !map_length. reflexivity.
+  Qed.
+
+  Lemma move_ctor_ok : forall rhs vs, rep rhs vs ->
+    exists s r ws, move_ctor P rhs = Ok (s, r) /\ rep s vs /\ rep r ws.
+  Proof.
+    intros rhs vs H. unfold move_ctor. destruct (size rhs <=? S) eqn:E.
+    - apply Nat.leb_le in E. destruct (rep_moveout _ _ H) as (d' & Hm & Hr').
+      rewrite Hm. cbn [bind].
+      pose proof (rep_size _ _ H) as Hs. rewrite Hs in E.
+      rewrite (fresh_local_split (length vs) E).
+      pose proof (assign_app [] vs (repeat fl (length vs)) (repeat fl (S - length vs)) 0 eq_refl) as Ha.
+      app0 Ha. rewrite Ha; [|apply repeat_length|apply Forall_repeat, fl_alive]. cbn [bind].
+      eexists _, _, _. split; [reflexivity|]. split; [|exact Hr'].
+      eapply rep_local; [reflexivity| |symmetry; exact Hs|apply Forall_repeat, fl_alive].
+      rewrite app_length, map_length, repeat_length. lia.
+    - apply Nat.leb_gt in E.
+      destruct H as (Hll & Hla & rest & Hd & Hn & Hr & Hc).
+      destruct rhs as [[h|] l sz]; cbn [heap loc size data is_heap] in *.
+      + eexists _, _, []. split; [reflexivity|]. split.
+        * eapply rep_heap; [exact Hd|apply fresh_local_length|apply fresh_local_alive|exact Hn|exact Hr|].
+          exact Hc.
+        * eapply rep_local with (rest := l); [reflexivity|assumption|reflexivity|assumption].
+      + exfalso. rewrite Hd in Hll. rewrite app_length, map_length in Hll. lia.
+  Qed.
+
+  Lemma rep_cap : forall s vs, rep s vs -> length vs <= capacity s /\ S <= capacity s.
+  Proof.
+    intros s vs (Hll & Hla & rest & Hd & Hn & Hr & Hc). split; [|exact Hc].
+    unfold capacity. rewrite Hd, app_length, map_length. lia.
+  Qed.
+
+  Lemma skipn_map_AS_app : forall vs rest, skipn (length vs) (map AS vs ++ rest) = rest.
+  Proof.
+    intros. rewrite skipn_app, map_length, Nat.sub_diag. cbn.
+    rewrite <- (map_length AS vs), skipn_all. reflexivity.
+  Qed.
+
+  Lemma Forall_firstn_skipn : forall (A : Type) (Q : A -> Prop) n l,
+    Forall Q l -> Forall Q (firstn n l) /\ Forall Q (skipn n l).
+  Proof. intros A Q n l H. rewrite <- (firstn_skipn n l) in H. apply Forall_app in H. exact H. Qed.
+
+  (* writing xs behind the elements, inside the capacity *)
+  Lemma write_end_ok : forall w s vs xs,
+    (forall c v, restP P (is_heap s) c -> w c v = Ok (AS v)) ->
+    rep s vs -> length vs + length xs <= capacity s ->
+    exists d, write_range w (size s) xs (data s) = Ok d /\
+              rep (set_data s d (size s + length xs)) (vs ++ xs).
+  Proof.
+    intros w s vs xs Hw (Hll & Hla & rest & Hd & Hn & Hr & Hc) Hle.
+    assert (Hrl : length xs <= length rest).
+    { unfold capacity in Hle. rewrite Hd, app_length, map_length in Hle. lia. }
+    destruct (Forall_firstn_skipn _ _ (length xs) _ Hr) as (Hr1 & Hr2).
+    rewrite Hd, <- (firstn_skipn (length xs) rest).
+    rewrite (write_range_app w AS (restP P (is_heap s)) Hw (map AS vs) xs);
+      [|rewrite map_length; auto|rewrite firstn_length; lia|exact Hr1].
+    eexists. split; [reflexivity|].
+    assert (Hshape : map AS vs ++ map AS xs ++ skipn (length xs) rest
+                     = map AS (vs ++ xs) ++ skipn (length xs) rest).
+    { rewrite map_app, app_assoc. reflexivity. }
+    rewrite Hshape.
+    destruct s as [[h|] l sz]; cbn [set_data heap loc size data is_heap] in *.
+    - eapply rep_heap; [reflexivity|assumption|assumption|rewrite app_length; lia|exact Hr2|].
+      unfold capacity in Hc. cbn in Hc. rewrite Hd in Hc.
+      rewrite !app_length, !map_length, skipn_length in *. rewrite app_length. lia.
+    - eapply rep_local; [reflexivity| |rewrite app_length; lia|exact Hr2].
+      rewrite <- Hll, Hd. rewrite !app_length, !map_length, skipn_length, app_length. lia.
+  Qed.
+
+  Lemma put_heap : forall s, is_heap s = true -> put P s = c_construct P.
+  Proof. intros s H. unfold put. rewrite H. reflexivity. Qed.
+
+  (* assigning onto cells that are live objects anyway *)
+  Lemma assign_rest_ok : forall s, (is_heap s && negb triv = false) ->
+    forall c v, restP P (is_heap s) c -> c_assign c v = Ok (AS v).
+  Proof. intros s H c v Hc. unfold restP in Hc. rewrite H in Hc. apply assign_ok. exact Hc. Qed.
+
+  Lemma construct_rest_ok : forall s, is_heap s = true ->
+    forall c v, restP P (is_heap s) c -> c_construct P c v = Ok (AS v).
+  Proof. intros s H c v Hc. rewrite H in Hc. apply construct_ok. exact Hc. Qed.
+
+  (* dropping the elements behind the first n *)
+  Lemma shrink_destroy_ok : forall s vs n,
+    rep s vs -> n <= length vs -> is_heap s = true -> triv = false ->
+    exists d, destroy_range P n (size s) (data s) = Ok d /\ rep (set_data s d n) (firstn n vs).
+  Proof.
+    intros s vs n (Hll & Hla & rest & Hd & Hn & Hr & Hc) Hle Hh Ht.
+    assert (Hv : map AS vs = map AS (firstn n vs) ++ map AS (skipn n vs)).
+    { rewrite <- map_app, firstn_skipn. reflexivity. }
+    rewrite Hd, Hv, <- app_assoc.
+    rewrite (destroy_app (map AS (firstn n vs)) (map AS (skipn n vs)) rest n (size s));
+      [|rewrite map_length, firstn_length; lia|rewrite map_length, skipn_length; lia|apply alive_AS].
+    eexists. split; [reflexivity|].
+    destruct s as [[h|] l sz]; cbn [set_data heap loc size data is_heap] in *; [|discriminate].
+    eapply rep_heap; [reflexivity|assumption|assumption|rewrite firstn_length; lia| |].
+    - apply Forall_app. split; [|exact Hr]. apply Forall_repeat. unfold restP. rewrite Ht. reflexivity.
+    - unfold capacity in Hc. cbn in Hc. rewrite Hd in Hc.
+      rewrite !app_length, !map_length, repeat_length, firstn_length, skipn_length in *. lia.
+  Qed.
+
+  Lemma shrink_keep_ok : forall s vs n,
+    rep s vs -> n <= length vs -> (is_heap s && negb triv = false) ->
+    rep (set_data s (data s) n) (firstn n vs).
+  Proof.
+    intros s vs n (Hll & Hla & rest & Hd & Hn & Hr & Hc) Hle Hk.
+    assert (Hshape : data s = map AS (firstn n vs) ++ (map AS (skipn n vs) ++ rest)).
+    { rewrite Hd. rewrite <- (firstn_skipn n vs) at 1. rewrite map_app, <- app_assoc. reflexivity. }
+    assert (Hrest : Forall (restP P (is_heap s)) (map AS (skipn n vs) ++ rest)).
+    { apply Forall_app. split; [|exact Hr].
+      eapply Forall_impl; [|apply alive_AS]. intros c Hcc. unfold restP. rewrite Hk. exact Hcc. }
+    destruct s as [[h|] l sz]; cbn [set_data heap loc size data is_heap] in *.
+    - eapply rep_heap; [exact Hshape|assumption|assumption|rewrite firstn_length; lia|exact Hrest|exact Hc].
+    - eapply rep_local; [exact Hshape|assumption|rewrite firstn_length; lia|].
+      eapply Forall_impl; [|exact Hrest]. intros c Hcc. exact Hcc.
+  Qed.
+
+  (* overwriting all the elements *)
+  Lemma overwrite_ok : forall s us ws, rep s us -> length ws = length us ->
+    exists d, write_range c_assign 0 ws (data s) = Ok d /\ rep (set_data s d (size s)) ws.
+  Proof.
+    intros s us ws (Hll & Hla & rest & Hd & Hn & Hr & Hc) Hl.
+    rewrite Hd. pose proof (assign_app [] ws (map AS us) rest 0 eq_refl) as Ha. app0 Ha.
+    rewrite Ha; [|rewrite map_length; lia|apply alive_AS].
+    eexists. split; [reflexivity|].
+    destruct s as [[h|] l sz]; cbn [set_data heap loc size data is_heap] in *.
+    - eapply rep_heap; [reflexivity|assumption|assumption|lia|exact Hr|].
+      unfold capacity in Hc. cbn in Hc. rewrite Hd in Hc. rewrite !app_length, !map_length in *. lia.
+    - eapply rep_local; [reflexivity| |lia|exact Hr].
+      rewrite <- Hll, Hd, !app_length, !map_length. lia.
+  Qed.
+
+  Lemma rep_set_size_same : forall s vs, rep s vs -> set_data s (data s) (size s) = s.
+  Proof. intros [[h|] l n] vs _; reflexivity. Qed.
+
+  (* ------------------------------------------------- the methods *)
+  Lemma filter_alive_all : forall l, Forall alive l -> filter is_alive l = l.
+  Proof. induction 1 as [|c l Hc _ IH]; cbn; [reflexivity|]. rewrite Hc, IH. reflexivity. Qed.
+
+  Lemma filter_alive_raw : forall l, Forall (fun c => c = Raw) l -> filter is_alive l = [].
+  Proof. induction 1 as [|c l Hc _ IH]; cbn; [reflexivity|]. subst c. exact IH. Qed.
+
+  Lemma destroy_sv_ok : forall s vs, rep s vs -> destroy_sv P s = Ok (live_count P s).
+  Proof.
+    intros s vs (Hll & Hla & rest & Hd & Hn & Hr & Hc).
+    unfold destroy_sv, live_count.
+    destruct s as [[h|] l sz]; cbn [heap loc size data is_heap] in *.
+    - erewrite free_heap_ok; [|exact Hd|exact Hn|exact Hr]. cbn [bind loc].
+      destruct triv eqn:Ht; [reflexivity|].
+      pose proof (destroy_app [] l [] 0 S eq_refl) as Hx. app0 Hx. rewrite app_nil_r in Hx.
+      rewrite Hx; [|lia|exact Hla]. cbn [bind].
+      rewrite (filter_alive_all l Hla), Hd, filter_app.
+      rewrite (filter_alive_all _ (alive_AS vs)), app_length, map_length.
+      rewrite (filter_alive_raw rest); [|apply restP_heap_nontriv; assumption].
+      cbn [length]. f_equal. lia.
+    - cbn [bind loc]. destruct triv eqn:Ht; [reflexivity|].
+      pose proof (destroy_app [] l [] 0 S eq_refl) as Hx. app0 Hx. rewrite app_nil_r in Hx.
+      rewrite Hx; [|lia|exact Hla]. cbn [bind].
+      rewrite (filter_alive_all l Hla). f_equal. lia.
+  Qed.
+
+  Lemma clear_ok : forall s vs, rep s vs -> exists s', clear P s = Ok s' /\ rep s' [].
+  Proof.
+    intros s vs (Hll & Hla & rest & Hd & Hn & Hr & Hc). unfold clear.
+    destruct s as [[h|] l sz]; cbn [heap loc size data is_heap] in *.
+    - erewrite free_heap_ok; [|exact Hd|exact Hn|exact Hr]. cbn [bind loc].
+      eexists. split; [reflexivity|]. eapply rep_local with (rest := l); auto.
+    - cbn [bind loc]. eexists. split; [reflexivity|]. eapply rep_local with (rest := l); auto.
+  Qed.
+
+  Lemma reserve_ok : forall s vs n, rep s vs ->
+    exists s', reserve P n s = Ok s' /\ rep s' vs /\ n <= capacity s' /\ capacity s <= capacity s'.
+  Proof.
+    intros s vs n H. unfold reserve. destruct (capacity s <? n) eqn:E.
+    - apply Nat.ltb_lt in E. destruct (rep_cap _ _ H) as (H1 & H2).
+      destruct (grow_ok s vs n H) as (s' & Hg & Hr & _ & Hcap); [lia|lia|].
+      exists s'. split; [assumption|]. split; [assumption|]. split; lia.
+    - apply Nat.ltb_ge in E. exists s. split; [reflexivity|]. split; [assumption|]. split; lia.
+  Qed.
+
+  Lemma grow1_size : forall n, n + 1 <= (if 1 <? n then 3 * n / 2 else n + 1).
+  Proof.
+    intro n. destruct (1 <? n) eqn:E; [|lia]. apply Nat.ltb_lt in E.
+    apply Nat.div_le_lower_bound; lia.
+  Qed.
+
+  Lemma push_back_ok : forall s vs x, rep s vs ->
+    exists s', push_back P x s = Ok s' /\ rep s' (vs ++ [x]).
+  Proof.
+    intros s vs x H. unfold push_back.
+    destruct (rep_cap _ _ H) as (Hc1 & Hc2). pose proof (rep_size _ _ H) as Hs.
+    destruct (size s =? capacity s) eqn:E.
+    - apply Nat.eqb_eq in E. unfold grow1.
+      pose proof (grow1_size (size s)) as Hg.
+      destruct (grow_ok s vs (if 1 <? size s then 3 * size s / 2 else size s + 1) H)
+        as (s1 & Hg1 & Hr1 & Hh1 & Hcap1); [lia|lia|].
+      rewrite Hg1. cbn [bind]. rewrite <- (put_heap s1 Hh1).
+      destruct (write_end_ok (put P s1) s1 vs [x] (put_ok s1) Hr1) as (d & Hw & Hr2).
+      { cbn [length]. lia. }
+      rewrite Hw. cbn [bind]. eexists. split; [reflexivity|].
+      cbn [length] in Hr2. rewrite Nat.add_1_r in Hr2. exact Hr2.
+    - apply Nat.eqb_neq in E.
+      destruct (write_end_ok (put P s) s vs [x] (put_ok s) H) as (d & Hw & Hr2).
+      { cbn [length]. lia. }
+      rewrite Hw. cbn [bind]. eexists. split; [reflexivity|].
+      cbn [length] in Hr2. rewrite Nat.add_1_r in Hr2. exact Hr2.
+  Qed.
+
+  Lemma read_one : forall s vs i, rep s vs -> i < length vs ->
+    read_range i 1 (data s) = Ok [nth i vs dflt].
+  Proof.
+    intros s vs i (Hll & Hla & rest & Hd & Hn & Hr & Hc) Hi.
+    rewrite Hd.
+    assert (Hv : vs = firstn i vs ++ [nth i vs dflt] ++ skipn (Datatypes.S i) vs).
+    { rewrite <- (firstn_skipn i vs) at 1. f_equal.
+      clear - Hi. revert i Hi. induction vs as [|v vs IH]; intros i Hi; [cbn in Hi; lia|].
+      destruct i; [reflexivity|]. cbn. apply IH. cbn in Hi. lia. }
+    rewrite Hv at 1. rewrite !map_app, <- !app_assoc.
+    pose proof (read_range_app [nth i vs dflt] (map AS (firstn i vs))
+                  (map AS (skipn (Datatypes.S i) vs) ++ rest) i) as Hx.
+    cbn [length map] in Hx. cbn [map]. apply Hx.
+    rewrite map_length, firstn_length. lia.
+  Qed.
+
+  Lemma push_back_self_ok : forall s vs i, rep s vs -> i < length vs ->
+    exists s', push_back_self P i s = Ok s' /\ rep s' (vs ++ [nth i vs dflt]).
+  Proof.
+    intros s vs i H Hi. unfold push_back_self. rewrite (read_one s vs i H Hi). cbn [bind].
+    apply push_back_ok. exact H.
+  Qed.
+
+  Definition resized (n : nat) (vs : list V) : list V := firstn n vs ++ repeat dflt (n - length vs).
+
+  Lemma resized_short : forall n vs, n <= length vs -> resized n vs = firstn n vs.
+  Proof. intros. unfold resized. replace (n - length vs) with 0 by lia. cbn. apply app_nil_r. Qed.
+
+  Lemma extend_ok : forall w s vs n,
+    (forall c v, restP P (is_heap s) c -> w c v = Ok (AS v)) ->
+    rep s vs -> length vs <= n -> n <= capacity s ->
+    exists d, write_range w (size s) (repeat dflt (n - size s)) (data s) = Ok d /\
+              rep (set_data s d n) (resized n vs).
+  Proof.
+    intros w s vs n Hw H Hle Hcap. pose proof (rep_size _ _ H) as Hs.
+    destruct (write_end_ok w s vs (repeat dflt (n - size s)) Hw H) as (d & Hd & Hr).
+    { rewrite repeat_length. lia. }
+    exists d. split; [exact Hd|]. rewrite repeat_length in Hr.
+    replace (size s + (n - size s)) with n in Hr by lia.
+    unfold resized. rewrite firstn_all2 by lia. rewrite <- Hs. exact Hr.
+  Qed.
+
+  Lemma resize_ok : forall s vs n, rep s vs ->
+    exists s', resize P n s = Ok s' /\ rep s' (resized n vs).
+  Proof.
+    intros s vs n H. unfold resize.
+    destruct (rep_cap _ _ H) as (Hc1 & Hc2). pose proof (rep_size _ _ H) as Hs.
+    destruct (n <=? capacity s) eqn:E.
+    - apply Nat.leb_le in E. destruct triv eqn:Ht; cbn [negb].
+      + destruct (size s <? n) eqn:E2.
+        * apply Nat.ltb_lt in E2.
+          destruct (extend_ok c_assign s vs n) as (d & Hd & Hr); [|assumption|lia|assumption|].
+          { apply assign_rest_ok. rewrite Ht. apply andb_false_r. }
+          rewrite Hd. cbn [bind]. eexists. split; [reflexivity|exact Hr].
+        * apply Nat.ltb_ge in E2. cbn [bind]. eexists. split; [reflexivity|].
+          rewrite resized_short by lia. apply shrink_keep_ok; [assumption|lia|].
+          rewrite Ht. apply andb_false_r.
+      + destruct (is_heap s) eqn:Hh.
+        * destruct (n <? size s) eqn:E2.
+          -- apply Nat.ltb_lt in E2.
+             destruct (shrink_destroy_ok s vs n H) as (d & Hd & Hr); [lia|assumption|assumption|].
+             rewrite Hd. cbn [bind]. eexists. split; [reflexivity|].
+             rewrite resized_short by lia. exact Hr.
+          -- apply Nat.ltb_ge in E2.
+             destruct (extend_ok (c_construct P) s vs n) as (d & Hd & Hr); [|assumption|lia|assumption|].
+             { apply construct_rest_ok. exact Hh. }
+             rewrite Hd. cbn [bind]. eexists. split; [reflexivity|exact Hr].
+        * destruct (size s <=? n) eqn:E2.
+          -- apply Nat.leb_le in E2.
+             destruct (extend_ok c_assign s vs n) as (d & Hd & Hr); [|assumption|lia|assumption|].
+             { apply assign_rest_ok. rewrite Hh. reflexivity. }
+             rewrite Hd. cbn [bind]. eexists. split; [reflexivity|exact Hr].
+          -- apply Nat.leb_gt in E2. cbn [bind]. eexists. split; [reflexivity|].
+             rewrite resized_short by lia. apply shrink_keep_ok; [assumption|lia|].
+             rewrite Hh. reflexivity.
+    - apply Nat.leb_gt in E.
+      destruct (grow_ok s vs n H) as (s1 & Hg & Hr1 & Hh1 & Hcap1); [lia|lia|].
+      rewrite Hg. cbn [bind].
+      destruct (extend_ok (c_construct P) s1 vs n) as (d & Hd & Hr); [|assumption|lia|lia|].
+      { apply construct_rest_ok. exact Hh1. }
+      rewrite Hd. cbn [bind]. eexists. split; [reflexivity|exact Hr].
+  Qed.
+
+  Lemma set_at_ok : forall s vs i x, rep s vs -> i < length vs ->
+    exists s', set_at i x s = Ok s' /\ rep s' (firstn i vs ++ x :: skipn (Datatypes.S i) vs).
+  Proof.
+    intros s vs i x H Hi. unfold set_at. pose proof (rep_size _ _ H) as Hs.
+    replace (i <? size s) with true by (symmetry; apply Nat.ltb_lt; lia).
+    destruct H as (Hll & Hla & rest & Hd & Hn & Hr & Hc).
+    assert (Hv : map AS vs = map AS (firstn i vs) ++ [AS (nth i vs dflt)] ++ map AS (skipn (Datatypes.S i) vs)).
+    { change [AS (nth i vs dflt)] with (map AS [nth i vs dflt]). rewrite <- !map_app. f_equal.
+      rewrite <- (firstn_skipn i vs) at 1. f_equal.
+      clear - Hi. revert i Hi. induction vs as [|v vs IH]; intros i Hi; [cbn in Hi; lia|].
+      destruct i; [reflexivity|]. cbn. apply IH. cbn in Hi. lia. }
+    rewrite Hd, Hv, <- !app_assoc.
+    rewrite (assign_app (map AS (firstn i vs)) [x] [AS (nth i vs dflt)]);
+      [|rewrite map_length, firstn_length; lia|reflexivity|constructor; [reflexivity|constructor]].
+    cbn [bind]. eexists. split; [reflexivity|].
+    assert (Hshape : map AS (firstn i vs) ++ map AS [x] ++ map AS (skipn (Datatypes.S i) vs) ++ rest
+                     = map AS (firstn i vs ++ x :: skipn (Datatypes.S i) vs) ++ rest).
+    { rewrite map_app. cbn [map app]. rewrite <- app_assoc. reflexivity. }
+    rewrite Hshape.
+    assert (Hlen : length (firstn i vs ++ x :: skipn (Datatypes.S i) vs) = size s).
+    { rewrite app_length, firstn_length. cbn [length]. rewrite skipn_length. lia. }
+    destruct s as [[h|] l sz]; cbn [set_data heap loc size data is_heap] in *.
+    - eapply rep_heap; [reflexivity|assumption|assumption|exact Hlen|exact Hr|].
+      unfold capacity in Hc. cbn in Hc. rewrite Hd, app_length, map_length in Hc.
+      rewrite app_length, map_length, Hlen. lia.
+    - eapply rep_local; [reflexivity| |exact Hlen|exact Hr].
+      rewrite app_length, map_length, Hlen. rewrite <- Hll, Hd, app_length, map_length. lia.
+  Qed.
+
+  Lemma data_set_data : forall s d n, data (set_data s d n) = d.
+  Proof. intros [[h|] l k] d n; reflexivity. Qed.
+  Lemma size_set_data : forall s d n, size (set_data s d n) = n.
+  Proof. intros [[h|] l k] d n; reflexivity. Qed.
+  Lemma set_data_set_data : forall s d n d' n', set_data (set_data s d n) d' n' = set_data s d' n'.
+  Proof. intros [[h|] l k] d n d' n'; reflexivity. Qed.
+  Lemma is_heap_set_data : forall s d n, is_heap (set_data s d n) = is_heap s.
+  Proof. intros [[h|] l k] d n; reflexivity. Qed.
+
+  (* std::copy over storage whose cells are all live objects *)
+  Lemma assign_over_alive : forall s us ws, rep s us -> (is_heap s && negb triv = false) ->
+    length ws <= capacity s ->
+    exists d, write_range c_assign 0 ws (data s) = Ok d /\ rep (set_data s d (length ws)) ws.
+  Proof.
+    intros s us ws (Hll & Hla & rest & Hd & Hn & Hr & Hc) Hk Hle.
+    assert (Hall : Forall alive (data s)).
+    { rewrite Hd. apply Forall_app. split; [apply alive_AS|].
+      eapply Forall_impl; [|exact Hr]. intros c Hcc. unfold restP in Hcc. rewrite Hk in Hcc. exact Hcc. }
+    destruct (Forall_firstn_skipn _ _ (length ws) _ Hall) as (H1 & H2).
+    unfold capacity in *.
+    rewrite <- (firstn_skipn (length ws) (data s)).
+    pose proof (assign_app [] ws (firstn (length ws) (data s)) (skipn (length ws) (data s)) 0 eq_refl) as Ha.
+    app0 Ha. rewrite Ha; [|rewrite firstn_length; lia|exact H1].
+    eexists. split; [reflexivity|].
+    assert (Hr2 : Forall (restP P (is_heap s)) (skipn (length ws) (data s))).
+    { eapply Forall_impl; [|exact H2]. intros c Hcc. unfold restP. rewrite Hk. exact Hcc. }
+    assert (Hlen : length (map AS ws ++ skipn (length ws) (data s)) = length (data s)).
+    { rewrite app_length, map_length, skipn_length. lia. }
+    destruct s as [[h|] l sz]; cbn [set_data heap loc size data is_heap] in *.
+    - eapply rep_heap; [reflexivity|assumption|assumption|reflexivity|exact Hr2|]. rewrite Hlen. exact Hc.
+    - eapply rep_local; [reflexivity| |reflexivity|].
+      + rewrite Hlen. exact Hll.
+      + eapply Forall_impl; [|exact Hr2]. intros c Hcc. exact Hcc.
+  Qed.
+
+  Lemma copy_assign_ok : forall this rhs us ws, rep this us -> rep rhs ws ->
+    exists s, copy_assign P this rhs = Ok s /\ rep s ws.
+  Proof.
+    intros this rhs us ws Ht Hrhs. unfold copy_assign.
+    pose proof (rep_size _ _ Hrhs) as Hsr. pose proof (rep_size _ _ Ht) as Hst.
+    destruct (rep_cap _ _ Ht) as (Hc1 & Hc2).
+    rewrite (contents_ok _ _ Hrhs).
+    destruct (capacity this <? size rhs) eqn:E.
+    - apply Nat.ltb_lt in E.
+      assert (H1 : exists this1, (if is_heap this then free_heap_memory P this else Ok this) = Ok this1
+                   /\ loc this1 = loc this).
+      { destruct Ht as (Hll & Hla & rest & Hd & Hn & Hr & Hc).
+        destruct this as [[h|] l sz]; cbn [heap loc size data is_heap] in *.
+        - erewrite free_heap_ok; [|exact Hd|exact Hn|exact Hr]. eexists. split; reflexivity.
+        - eexists. split; reflexivity. }
+      destruct H1 as (this1 & H1 & Hl1). rewrite H1. cbn [bind].
+      rewrite Hsr.
+      pose proof (construct_app [] ws (alloc P (length ws)) [] 0 eq_refl) as H.
+      app0 H. rewrite !app_nil_r in H. rewrite H; [|apply alloc_length|apply alloc_rest]. cbn [bind].
+      eexists. split; [reflexivity|].
+      destruct Ht as (Hll & Hla & _).
+      eapply rep_heap with (rest := []);
+        [rewrite app_nil_r; reflexivity|rewrite Hl1; exact Hll|rewrite Hl1; exact Hla|reflexivity|constructor|].
+      rewrite map_length. lia.
+    - apply Nat.ltb_ge in E. cbn [bind].
+      destruct (negb triv && is_heap this) eqn:Hk.
+      + apply andb_true_iff in Hk. destruct Hk as (Hk1 & Hk2). apply negb_true_iff in Hk1.
+        assert (Hmid : exists d1 xs, (if size rhs <? size this
+                          then destroy_range P (size rhs) (size this) (data this)
+                          else write_range (c_construct P) (size this)
+                                 (repeat dflt (size rhs - size this)) (data this)) = Ok d1
+                       /\ rep (set_data this d1 (size rhs)) xs /\ length xs = size rhs).
+        { destruct (size rhs <? size this) eqn:E2.
+          - apply Nat.ltb_lt in E2.
+            destruct (shrink_destroy_ok this us (size rhs) Ht) as (d & Hd & Hr); [lia|assumption|assumption|].
+            exists d, (firstn (size rhs) us). split; [exact Hd|]. split; [exact Hr|].
+            rewrite firstn_length. lia.
+          - apply Nat.ltb_ge in E2.
+            destruct (extend_ok (c_construct P) this us (size rhs)) as (d & Hd & Hr); [|assumption|lia|assumption|].
+            { apply construct_rest_ok. exact Hk2. }
+            exists d, (resized (size rhs) us). split; [exact Hd|]. split; [exact Hr|].
+            unfold resized. rewrite app_length, firstn_length, repeat_length. lia. }
+        destruct Hmid as (d1 & xs & Hd1 & Hr1 & Hlx). rewrite Hd1. cbn [bind].
+        destruct (overwrite_ok _ xs ws Hr1) as (d2 & Hd2 & Hr2); [lia|].
+        rewrite data_set_data in Hd2. rewrite Hd2. cbn [bind].
+        rewrite size_set_data, set_data_set_data in Hr2.
+        eexists. split; [reflexivity|exact Hr2].
+      + cbn [bind].
+        destruct (assign_over_alive this us ws Ht) as (d & Hd & Hr).
+        { rewrite andb_comm. exact Hk. }
+        { lia. }
+        rewrite Hd. cbn [bind]. rewrite Hsr. eexists. split; [reflexivity|exact Hr].
+  Qed.
+
+  Lemma move_assign_ok : forall this rhs us ws, rep this us -> rep rhs ws ->
+    exists s r xs, move_assign P this rhs = Ok (s, r) /\ rep s ws /\ rep r xs.
+  Proof.
+    intros this rhs us ws Ht Hrhs. unfold move_assign.
+    pose proof (rep_size _ _ Hrhs) as Hsr.
+    assert (H1 : exists this1, (if is_heap this then free_heap_memory P this else Ok this) = Ok this1
+                 /\ loc this1 = loc this).
+    { destruct Ht as (Hll & Hla & rest & Hd & Hn & Hr & Hc).
+      destruct this as [[h|] l sz]; cbn [heap loc size data is_heap] in *.
+      - erewrite free_heap_ok; [|exact Hd|exact Hn|exact Hr]. eexists. split; reflexivity.
+      - eexists. split; reflexivity. }
+    destruct H1 as (this1 & H1 & Hl1). rewrite H1. cbn [bind]. rewrite Hl1.
+    destruct Ht as (Hll & Hla & _).
+    destruct (size rhs <=? S) eqn:E.
+    - apply Nat.leb_le in E. destruct (rep_moveout _ _ Hrhs) as (d' & Hm & Hr').
+      rewrite Hm. cbn [bind].
+      destruct (Forall_firstn_skipn _ _ (length ws) _ Hla) as (Ha1 & Ha2).
+      rewrite <- (firstn_skipn (length ws) (loc this)).
+      pose proof (assign_app [] ws (firstn (length ws) (loc this)) (skipn (length ws) (loc this)) 0 eq_refl) as Ha.
+      app0 Ha. rewrite Ha; [|rewrite firstn_length; lia|exact Ha1]. cbn [bind].
+      eexists _, _, _. split; [reflexivity|]. split; [|exact Hr'].
+      eapply rep_local; [reflexivity| |symmetry; exact Hsr|exact Ha2].
+      rewrite app_length, map_length, skipn_length. lia.
+    - apply Nat.leb_gt in E.
+      destruct Hrhs as (Hrl & Hra & rest & Hd & Hn & Hr & Hc).
+      destruct rhs as [[h|] l sz]; cbn [heap loc size data is_heap] in *.
+      + eexists _, _, []. split; [reflexivity|]. split.
+        * eapply rep_heap; [exact Hd|exact Hll|exact Hla|exact Hn|exact Hr|exact Hc].
+        * eapply rep_local with (rest := l); [reflexivity|assumption|reflexivity|assumption].
+      + exfalso. rewrite Hd in Hrl. rewrite app_length, map_length in Hrl. lia.
+  Qed.
+
+  Lemma append_ok : forall s vs xs, rep s vs ->
+    exists s', append P xs s = Ok (s', length vs) /\ rep s' (vs ++ xs).
+  Proof.
+    intros s vs xs H. unfold append. pose proof (rep_size _ _ H) as Hs.
+    destruct (reserve_ok s vs (size s + length xs) H) as (s1 & Hres & Hr1 & Hcap & _).
+    rewrite Hres. cbn [bind]. pose proof (rep_size _ _ Hr1) as Hs1.
+    destruct (write_end_ok (put P s1) s1 vs xs (put_ok s1) Hr1) as (d & Hw & Hr2); [lia|].
+    rewrite Hw. cbn [bind]. rewrite Hs. eexists. split; [reflexivity|exact Hr2].
+  Qed.
+
+  (* ------------------------------------------------- insert *)
+  Ltac lens := rewrite ?app_length, ?map_length, ?firstn_length, ?skipn_length, ?repeat_length; try lia.
+
+  Lemma insert_shift_ok : forall w (Q : cell -> Prop) A B C R1 R2 xs pos n sz,
+    (forall c v, Q c -> w c v = Ok (AS v)) -> Forall Q R1 ->
+    pos = length A -> n = length C -> sz = length A + length B + length C ->
+    length R1 = n -> length xs = n ->
+    insert_shift P w pos n sz xs (map AS A ++ map AS B ++ map AS C ++ R1 ++ R2)
+    = Ok (map AS (A ++ xs ++ B ++ C) ++ R2).
+  Proof.
+    intros w Q A B C R1 R2 xs pos n sz Hw HQ Hpos Hn Hsz HR1 Hxs. unfold insert_shift.
+    (* 1. move the last n elements out *)
+    assert (E1 : moveout_range P (sz - n) n (map AS A ++ map AS B ++ map AS C ++ R1 ++ R2)
+                 = Ok (C, map AS A ++ map AS B ++ map AS (map mv C) ++ R1 ++ R2)).
+    { rewrite Hn at 2.
+      replace (map AS A ++ map AS B ++ map AS C ++ R1 ++ R2)
+        with ((map AS A ++ map AS B) ++ map AS C ++ (R1 ++ R2)) by (rewrite <- ?app_assoc; reflexivity).
+      rewrite moveout_app by lens. rewrite <- ?app_assoc. reflexivity. }
+    rewrite E1. cbn [bind].
+    (* 2. ... behind the old end *)
+    assert (E2 : write_range w sz C (map AS A ++ map AS B ++ map AS (map mv C) ++ R1 ++ R2)
+                 = Ok (map AS A ++ map AS B ++ map AS (map mv C) ++ map AS C ++ R2)).
+    { replace (map AS A ++ map AS B ++ map AS (map mv C) ++ R1 ++ R2)
+        with ((map AS A ++ map AS B ++ map AS (map mv C)) ++ R1 ++ R2) by (rewrite <- ?app_assoc; reflexivity).
+      rewrite (write_range_app w AS Q Hw) by (try assumption; lens).
+      rewrite <- ?app_assoc. reflexivity. }
+    rewrite E2. cbn [bind].
+    (* 3. move the middle out *)
+    assert (E3 : moveout_range P pos (sz - n - pos)
+                   (map AS A ++ map AS B ++ map AS (map mv C) ++ map AS C ++ R2)
+                 = Ok (B, map AS A ++ map AS (map mv B) ++ map AS (map mv C) ++ map AS C ++ R2)).
+    { replace (sz - n - pos) with (length B) by lia.
+      rewrite moveout_app by lens. reflexivity. }
+    rewrite E3. cbn [bind].
+    (* 4. ... n places further; M = the moved-from region *)
+    set (M := map AS (map mv B) ++ map AS (map mv C)).
+    assert (HM : Forall alive M).
+    { apply Forall_app. split; apply alive_AS. }
+    assert (HlM : length M = length B + n).
+    { unfold M. lens. }
+    destruct (Forall_firstn_skipn _ _ n _ HM) as (HM1 & HM2).
+    assert (E4 : write_range c_assign (pos + n) B
+                   (map AS A ++ map AS (map mv B) ++ map AS (map mv C) ++ map AS C ++ R2)
+                 = Ok (map AS A ++ firstn n M ++ map AS B ++ map AS C ++ R2)).
+    { replace (map AS A ++ map AS (map mv B) ++ map AS (map mv C) ++ map AS C ++ R2)
+        with ((map AS A ++ firstn n M) ++ skipn n M ++ (map AS C ++ R2)).
+      2:{ rewrite <- ?app_assoc. f_equal. rewrite (app_assoc (firstn n M)), firstn_skipn.
+          unfold M. rewrite <- ?app_assoc. reflexivity. }
+      rewrite assign_app; [rewrite <- ?app_assoc; reflexivity| | |exact HM2].
+      - rewrite app_length, map_length, firstn_length. lia.
+      - rewrite skipn_length. lia. }
+    rewrite E4. cbn [bind].
+    (* 5. the new elements *)
+    rewrite (assign_app (map AS A) xs (firstn n M)); [| | |exact HM1].
+    - f_equal. rewrite !map_app, <- ?app_assoc. reflexivity.
+    - lens.
+    - rewrite firstn_length. lia.
+  Qed.
+
+  Lemma insert_over_ok : forall w (Q : cell -> Prop) A T R1a R1b R2 xs pos n sz,
+    (forall c v, Q c -> w c v = Ok (AS v)) -> Forall Q R1a -> Forall Q R1b ->
+    pos = length A -> sz = length A + length T -> length xs = n -> length T < n ->
+    length R1a = n - length T -> length R1b = length T ->
+    insert_over P w w pos n sz xs (map AS A ++ map AS T ++ R1a ++ R1b ++ R2)
+    = Ok (map AS (A ++ xs ++ T) ++ R2).
+  Proof.
+    intros w Q A T R1a R1b R2 xs pos n sz Hw HQa HQb Hpos Hsz Hxs Hlt Hla Hlb. unfold insert_over.
+    replace (sz - pos) with (length T) by lia.
+    rewrite moveout_app by lens. cbn [bind].
+    assert (E2 : write_range w (sz + n - length T) T
+                   (map AS A ++ map AS (map mv T) ++ R1a ++ R1b ++ R2)
+                 = Ok (map AS A ++ map AS (map mv T) ++ R1a ++ map AS T ++ R2)).
+    { replace (map AS A ++ map AS (map mv T) ++ R1a ++ R1b ++ R2)
+        with ((map AS A ++ map AS (map mv T) ++ R1a) ++ R1b ++ R2) by (rewrite <- ?app_assoc; reflexivity).
+      rewrite (write_range_app w AS Q Hw) by (try assumption; lens).
+      rewrite <- ?app_assoc. reflexivity. }
+    rewrite E2. cbn [bind].
+    rewrite (assign_app (map AS A) (firstn (length T) xs) (map AS (map mv T))); [| | |apply alive_AS].
+    2: lens. 2: lens.
+    cbn [bind].
+    assert (E4 : write_range w sz (skipn (length T) xs)
+                   (map AS A ++ map AS (firstn (length T) xs) ++ R1a ++ map AS T ++ R2)
+                 = Ok (map AS A ++ map AS (firstn (length T) xs) ++ map AS (skipn (length T) xs) ++ map AS T ++ R2)).
+    { replace (map AS A ++ map AS (firstn (length T) xs) ++ R1a ++ map AS T ++ R2)
+        with ((map AS A ++ map AS (firstn (length T) xs)) ++ R1a ++ (map AS T ++ R2))
+        by (rewrite <- ?app_assoc; reflexivity).
+      rewrite (write_range_app w AS Q Hw) by (try assumption; lens).
+      rewrite <- ?app_assoc. reflexivity. }
+    rewrite E4. f_equal.
+    rewrite <- (firstn_skipn (length T) xs) at 3.
+    rewrite !map_app, <- ?app_assoc. reflexivity.
+  Qed.
+
+  Lemma rep_set_data : forall s vs d ws rest' n',
+    rep s vs -> d = map AS ws ++ rest' -> Forall (restP P (is_heap s)) rest' ->
+    length d = length (data s) -> length ws = n' ->
+    rep (set_data s d n') ws.
+  Proof.
+    intros s vs d ws rest' n' (Hll & Hla & rest & Hd & Hn & Hr & Hc) Hshape Hr' Hlen Hn'.
+    unfold capacity in Hc.
+    destruct s as [[h|] l sz]; cbn [set_data heap loc size data is_heap] in *.
+    - eapply rep_heap; [exact Hshape|assumption|assumption|exact Hn'|exact Hr'|]. rewrite Hlen. exact Hc.
+    - eapply rep_local; [exact Hshape| |exact Hn'|].
+      + rewrite Hlen. exact Hll.
+      + eapply Forall_impl; [|exact Hr']. intros c Hcc. exact Hcc.
+  Qed.
+
+  Lemma insert_ok : forall s vs pos xs, rep s vs -> pos <= length vs ->
+    exists s', insert P pos xs s = Ok (s', pos) /\ rep s' (firstn pos vs ++ xs ++ skipn pos vs).
+  Proof.
+    intros s vs pos xs H Hpos. unfold insert. pose proof (rep_size _ _ H) as Hs.
+    replace (size s <? pos) with false by (symmetry; apply Nat.ltb_ge; lia).
+    destruct (pos =? size s) eqn:E.
+    - apply Nat.eqb_eq in E. destruct (append_ok s vs xs H) as (s' & Ha & Hr).
+      rewrite Ha. replace (length vs) with pos by lia. eexists. split; [reflexivity|].
+      rewrite firstn_all2, skipn_all2 by lia. rewrite app_nil_r. exact Hr.
+    - apply Nat.eqb_neq in E. destruct (length xs =? 0) eqn:E0.
+      + apply Nat.eqb_eq in E0. destruct xs; [|discriminate]. cbn [app].
+        rewrite firstn_skipn. eexists. split; [reflexivity|exact H].
+      + apply Nat.eqb_neq in E0.
+        destruct (reserve_ok s vs (size s + length xs) H) as (s1 & Hres & Hr1 & Hcap & _).
+        rewrite Hres. cbn [bind]. pose proof (rep_size _ _ Hr1) as Hs1.
+        pose proof Hr1 as (Hll & Hla & rest & Hd & Hn & Hr & Hc).
+        assert (Hrl : length xs <= length rest).
+        { unfold capacity in Hcap. rewrite Hd, app_length, map_length in Hcap. lia. }
+        set (n := length xs) in *. rewrite Hs1.
+        destruct (pos + n <=? length vs) eqn:E1.
+        * apply Nat.leb_le in E1.
+          set (A := firstn pos vs). set (BC := skipn pos vs).
+          set (B := firstn (length vs - n - pos) BC). set (C := skipn (length vs - n - pos) BC).
+          set (R1 := firstn n rest). set (R2 := skipn n rest).
+          assert (Hblk : data s1 = map AS A ++ map AS B ++ map AS C ++ R1 ++ R2).
+          { rewrite Hd. unfold A, B, C, R1, R2, BC.
+            rewrite (app_assoc (map AS (firstn _ _)) (map AS (skipn _ _))), <- map_app, firstn_skipn.
+            rewrite app_assoc, <- map_app, firstn_skipn, firstn_skipn. reflexivity. }
+          destruct (Forall_firstn_skipn _ _ n _ Hr) as (Hq1 & Hq2).
+          assert (HlA : length A = pos) by (unfold A; rewrite firstn_length; lia).
+          assert (HlBC : length BC = length vs - pos) by (unfold BC; rewrite skipn_length; lia).
+          assert (HlB : length B = length vs - n - pos) by (unfold B; rewrite firstn_length; lia).
+          assert (HlC : length C = n) by (unfold C; rewrite skipn_length; lia).
+          rewrite Hblk.
+          rewrite (insert_shift_ok (put P s1) (restP P (is_heap s1)) A B C R1 R2 xs pos n (length vs));
+            [|apply put_ok|exact Hq1|lia|lia|lia|unfold R1; rewrite firstn_length; lia|reflexivity].
+          cbn [bind]. eexists. split; [reflexivity|].
+          assert (HBC : BC = B ++ C) by (unfold B, C; rewrite firstn_skipn; reflexivity).
+          change (firstn pos vs) with A. change (skipn pos vs) with BC. rewrite HBC.
+          eapply rep_set_data; [exact Hr1|reflexivity|exact Hq2| |].
+          -- rewrite Hblk. rewrite !app_length, !map_length, !app_length.
+             unfold R1, R2. rewrite firstn_length. lia.
+          -- rewrite !app_length. lia.
+        * apply Nat.leb_gt in E1.
+          set (A := firstn pos vs). set (T := skipn pos vs).
+          set (R1a := firstn (n - length T) rest). set (R' := skipn (n - length T) rest).
+          set (R1b := firstn (length T) R'). set (R2 := skipn (length T) R').
+          assert (HlA : length A = pos) by (unfold A; rewrite firstn_length; lia).
+          assert (HlT : length T = length vs - pos) by (unfold T; rewrite skipn_length; lia).
+          assert (Hblk : data s1 = map AS A ++ map AS T ++ R1a ++ R1b ++ R2).
+          { rewrite Hd. unfold A, T, R1a, R1b, R2, R'.
+            rewrite (app_assoc (map AS (firstn _ _)) (map AS (skipn _ _))), <- map_app, firstn_skipn.
+            rewrite firstn_skipn, firstn_skipn. reflexivity. }
+          destruct (Forall_firstn_skipn _ _ (n - length T) _ Hr) as (Hq1 & Hq').
+          fold R1a in Hq1. fold R' in Hq'.
+          destruct (Forall_firstn_skipn _ _ (length T) _ Hq') as (Hq2 & Hq3).
+          fold R1b in Hq2. fold R2 in Hq3.
+          assert (HlR' : length R' = length rest - (n - length T)) by (unfold R'; rewrite skipn_length; lia).
+          rewrite Hblk.
+          rewrite (insert_over_ok (put P s1) (restP P (is_heap s1)) A T R1a R1b R2 xs pos n (length vs));
+            [|apply put_ok|exact Hq1|exact Hq2|lia|lia|reflexivity|lia
+             |unfold R1a; rewrite firstn_length; lia|unfold R1b; rewrite firstn_length; lia].
+          cbn [bind]. eexists. split; [reflexivity|].
+          eapply rep_set_data; [exact Hr1|reflexivity|exact Hq3| |].
+          -- rewrite Hblk. rewrite !app_length, !map_length, !app_length.
+             unfold R1a, R1b. rewrite !firstn_length. lia.
+          -- rewrite !app_length. fold n. lia.
+  Qed.
+
+  (* ------------------------------------------------- steps *)
+  Lemma target_mk : forall t a b, target t (mk_state t a b) = a.
+  Proof. intros [|] a b; reflexivity. Qed.
+  Lemma other_mk : forall t a b, other t (mk_state t a b) = b.
+  Proof. intros [|] a b; reflexivity. Qed.
+  Lemma mk_target_other : forall t st, mk_state t (target t st) (other t st) = st.
+  Proof. intros [|] [a b]; reflexivity. Qed.
+
+  Definition step_post (o : op) (st' : state) (r : option nat) (tg ot : list V) : Prop :=
+    let t := op_target o in
+    rep (target t st') (fst (fst (spec_step P o tg ot))) /\
+    (match snd (fst (spec_step P o tg ot)) with
+     | Some l => rep (other t st') l
+     | None => exists l, rep (other t st') l
+     end) /\
+    r = snd (spec_step P o tg ot).
+
+  Lemma step_ok : forall o st tg ot,
+    rep (target (op_target o) st) tg -> rep (other (op_target o) st) ot -> valid_op o tg ->
+    exists st' r, step P o st = Ok (st', r) /\ step_post o st' r tg ot.
+  Proof.
+    intros o st tg ot Ht Ho Hv. unfold step_post.
+    destruct o; cbn [op_target step spec_step fst snd valid_op] in *.
+    - (* CtorN *) unfold reconstruct. rewrite (destroy_sv_ok _ _ Ht). cbn [bind].
+      destruct (ctor_n_ok n) as (s & Hc & Hr). rewrite Hc. cbn [bind].
+      eexists _, _. split; [reflexivity|]. rewrite target_mk, other_mk. auto.
+    - (* CtorFill *) unfold reconstruct, ctor_fill. rewrite (destroy_sv_ok _ _ Ht). cbn [bind].
+      destruct (build_ok (repeat x n)) as (s & Hc & Hr). rewrite Hc. cbn [bind].
+      eexists _, _. split; [reflexivity|]. rewrite target_mk, other_mk. auto.
+    - (* CtorList *) unfold reconstruct, ctor_list. rewrite (destroy_sv_ok _ _ Ht). cbn [bind].
+      destruct (build_ok l) as (s & Hc & Hr). rewrite Hc. cbn [bind].
+      eexists _, _. split; [reflexivity|]. rewrite target_mk, other_mk. auto.
+    - (* CopyCtor *) unfold reconstruct. rewrite (destroy_sv_ok _ _ Ht). cbn [bind].
+      destruct (copy_ctor_ok _ _ Ho) as (s & Hc & Hr). rewrite Hc. cbn [bind].
+      eexists _, _. split; [reflexivity|]. rewrite target_mk, other_mk. auto.
+    - (* MoveCtor *) rewrite (destroy_sv_ok _ _ Ht). cbn [bind].
+      destruct (move_ctor_ok _ _ Ho) as (s & r & ws & Hc & Hr & Hr2). rewrite Hc. cbn [bind].
+      eexists _, _. split; [reflexivity|]. rewrite target_mk, other_mk. eauto.
+    - (* CopyAssign *) unfold upd.
+      destruct (copy_assign_ok _ _ _ _ Ht Ho) as (s & Hc & Hr). rewrite Hc. cbn [bind].
+      eexists _, _. split; [reflexivity|]. rewrite target_mk, other_mk. auto.
+    - (* MoveAssign *)
+      destruct (move_assign_ok _ _ _ _ Ht Ho) as (s & r & ws & Hc & Hr & Hr2). rewrite Hc. cbn [bind].
+      eexists _, _. split; [reflexivity|]. rewrite target_mk, other_mk. eauto.
+    - (* SelfAssign *) eexists _, _. split; [reflexivity|]. auto.
+    - (* Clear *) unfold upd.
+      destruct (clear_ok _ _ Ht) as (s & Hc & Hr). rewrite Hc. cbn [bind].
+      eexists _, _. split; [reflexivity|]. rewrite target_mk, other_mk. auto.
+    - (* PushBack *) unfold upd.
+      destruct (push_back_ok _ _ x Ht) as (s & Hc & Hr). rewrite Hc. cbn [bind].
+      eexists _, _. split; [reflexivity|]. rewrite target_mk, other_mk. auto.
+    - (* PushBackSelf *) unfold upd.
+      destruct (push_back_self_ok _ _ i Ht Hv) as (s & Hc & Hr). rewrite Hc. cbn [bind].
+      eexists _, _. split; [reflexivity|]. rewrite target_mk, other_mk. auto.
+    - (* EmplaceBack *) unfold upd, emplace_back.
+      destruct (push_back_ok _ _ x Ht) as (s & Hc & Hr). rewrite Hc. cbn [bind].
+      eexists _, _. split; [reflexivity|]. rewrite target_mk, other_mk. auto.
+    - (* Insert *)
+      destruct (insert_ok _ _ pos l Ht Hv) as (s & Hc & Hr). rewrite Hc. cbn [bind].
+      eexists _, _. split; [reflexivity|]. rewrite target_mk, other_mk. auto.
+    - (* Resize *) unfold upd.
+      destruct (resize_ok _ _ n Ht) as (s & Hc & Hr). rewrite Hc. cbn [bind].
+      eexists _, _. split; [reflexivity|]. rewrite target_mk, other_mk. auto.
+    - (* Reserve *) unfold upd.
+      destruct (reserve_ok _ _ n Ht) as (s & Hc & Hr & _). rewrite Hc. cbn [bind].
+      eexists _, _. split; [reflexivity|]. rewrite target_mk, other_mk. auto.
+    - (* SetAt *) unfold upd.
+      destruct (set_at_ok _ _ i x Ht Hv) as (s & Hc & Hr). rewrite Hc. cbn [bind].
+      eexists _, _. split; [reflexivity|]. rewrite target_mk, other_mk. auto.
+  Qed.
+
+  Lemma inv_target_other : forall t st, Inv P st -> sv_inv P (target t st) /\ sv_inv P (other t st).
+  Proof. intros [|] [a b] [Ha Hb]; cbn; auto. Qed.
+
+  Lemma inv_of_target_other : forall t st, sv_inv P (target t st) -> sv_inv P (other t st) -> Inv P st.
+  Proof. intros [|] [a b] Ha Hb; cbn in *; split; auto. Qed.
+
+  Lemma valid_op_b_spec : forall o tg, valid_op_b o tg = true <-> valid_op o tg.
+  Proof.
+    intros o tg. destruct o; cbn; try (split; auto; fail).
+    - apply Nat.ltb_lt.
+    - apply Nat.leb_le.
+    - apply Nat.ltb_lt.
+  Qed.
+
+  (* one step: no error, invariant kept, std::vector's result *)
+  Lemma step_refines : forall o st tg,
+    Inv P st -> abs (target (op_target o) st) = Some tg -> valid_op o tg ->
+    exists st' r, step P o st = Ok (st', r) /\ Inv P st' /\ spec_ok P o st st' r.
+  Proof.
+    intros o st tg HI Ha Hv.
+    destruct (inv_target_other (op_target o) st HI) as (H1 & H2).
+    destruct (inv_rep _ H1) as (tg' & Ht). destruct (inv_rep _ H2) as (ot & Ho).
+    assert (tg' = tg) by (eapply rep_fun; eauto). subst tg'.
+    destruct (step_ok o st tg ot Ht Ho Hv) as (st' & r & Hs & Hp1 & Hp2 & Hp3).
+    exists st', r. split; [exact Hs|].
+    assert (HI' : Inv P st').
+    { apply (inv_of_target_other (op_target o)).
+      - eapply rep_inv; exact Hp1.
+      - destruct (snd (fst (spec_step P o tg ot))); [eapply rep_inv; exact Hp2|].
+        destruct Hp2 as (l & Hl). eapply rep_inv; exact Hl. }
+    split; [exact HI'|].
+    unfold spec_ok. exists tg, ot. split; [exact Ha|]. split; [apply rep_abs; exact Ho|].
+    destruct (spec_step P o tg ot) as [[tg2 ot2] r2]. cbn [fst snd] in *.
+    split; [apply rep_abs; exact Hp1|]. split; [|exact Hp3].
+    destruct ot2; [apply rep_abs; exact Hp2|].
+    destruct Hp2 as (l & Hl). exists l. apply rep_abs; exact Hl.
+  Qed.
+
+  Lemma finish_ok : forall st, Inv P st ->
+    finish P st = Ok (live_count P (sa st) + live_count P (sb st)).
+  Proof.
+    intros [a b] [Ha Hb]. cbn in *. unfold finish. cbn [sa sb].
+    destruct (inv_rep _ Ha) as (xs & Hx). destruct (inv_rep _ Hb) as (ys & Hy).
+    rewrite (destroy_sv_ok _ _ Hx). cbn [bind]. rewrite (destroy_sv_ok _ _ Hy). reflexivity.
+  Qed.
+
+  (* whole scripts *)
+  Lemma run_refines : forall ops st, Inv P st ->
+    match run P ops st with
+    | Finished tr d => trace_ok P ops st tr /\ length tr = length ops
+    | Invalid tr => trace_ok P ops st tr /\ length tr < length ops
+    | Failed _ _ => False
+    end.
+  Proof.
+    induction ops as [|o ops IH]; intros st HI.
+    - cbn [run]. rewrite (finish_ok st HI). cbn. auto.
+    - cbn [run].
+      destruct (inv_target_other (op_target o) st HI) as (H1 & _).
+      destruct (inv_rep _ H1) as (tg & Ht). rewrite (rep_abs _ _ Ht).
+      destruct (valid_op_b o tg) eqn:Ev.
+      + apply valid_op_b_spec in Ev.
+        destruct (step_refines o st tg HI (rep_abs _ _ Ht) Ev) as (st' & r & Hs & HI' & Hspec).
+        rewrite Hs. specialize (IH st' HI').
+        destruct (run P ops st') as [tr d|tr e|tr]; cbn [cons_trace trace_ok length].
+        * destruct IH as (IH1 & IH2). split; [auto|lia].
+        * exact IH.
+        * destruct IH as (IH1 & IH2). split; [auto|lia].
+      + cbn. split; [exact I|lia].
+  Qed.
+
+  (* comparisons *)
+  Lemma list_eqb_eq : forall xs ys, list_eqb xs ys = true <-> xs = ys.
+  Proof.
+    induction xs as [|x xs IH]; intros [|y ys]; cbn; split; intro H; try discriminate; auto.
+    - apply andb_true_iff in H. destruct H as (H1 & H2). apply Z.eqb_eq in H1. apply IH in H2. congruence.
+    - inversion H; subst. rewrite Z.eqb_refl. cbn. apply IH. reflexivity.
+  Qed.
+
+  Lemma compare_ok : forall a b xs ys, sv_inv P a -> sv_inv P b -> abs a = Some xs -> abs b = Some ys ->
+    sv_eq a b = Ok (list_eqb xs ys) /\ sv_lt a b = Ok (lex_ltb xs ys).
+  Proof.
+    intros a b xs ys Ha Hb Hx Hy.
+    destruct (inv_rep _ Ha) as (xs' & Hrx). destruct (inv_rep _ Hb) as (ys' & Hry).
+    assert (xs' = xs) by (eapply rep_fun; eauto). assert (ys' = ys) by (eapply rep_fun; eauto). subst.
+    unfold sv_eq, sv_lt, contents.
+    rewrite (contents_ok _ _ Hrx), (contents_ok _ _ Hry). cbn [bind]. split; [|reflexivity].
+    rewrite (rep_size _ _ Hrx), (rep_size _ _ Hry).
+    destruct (length xs =? length ys) eqn:E; [reflexivity|].
+    apply Nat.eqb_neq in E. f_equal. symmetry.
+    destruct (list_eqb xs ys) eqn:E2; [|reflexivity].
+    apply list_eqb_eq in E2. subst. congruence.
+  Qed.
+
   Lemma init_inv : Inv P (init P).
   Proof. split; cbn; apply (rep_inv _ []), rep_empty. Qed.
 End Proofs.
